@@ -74,7 +74,8 @@ def load_step_labels(n, labels):
 
 
 def make_signal(samples, ratios, labels="0..n-1"):
-    """samples: list of ints (load of the first node), ratios: list of node factors (first = 1).
+    """samples: loads of a reference point (ints; dyadic floats in the float cases), ratios: node factors (first > 0, later ones
+    may be 0 = unloaded point, or positive floats in the oracle-only cases).
     Returns what the detector is fed: a numpy array for one node, a MultiIndex Series otherwise
     (`labels` chooses the load_step labels: they are labels, not positions)."""
     if len(ratios) == 1:
@@ -166,7 +167,8 @@ def periodic_rainflow(seq):
     if len(st) == 3:
         cycles.append((min(st[0], st[1]), max(st[0], st[1])))
     elif len(st) != 1 and len(st) != 3:
-        # ties in |.| can leave a longer residue; count pairwise from the inside (documented in DESIGN C04)
+        # defensive: a longer residue cannot occur (Proofs/Lemmas/Periodic*: the rotated word ends in [M, m, M] or [M]); kept so that a
+        # wrong input would still be counted pairwise from the inside instead of raising
         while len(st) >= 3:
             cycles.append((min(st[-3], st[-2]), max(st[-3], st[-2])))
             del st[-3:-1]
